@@ -637,6 +637,104 @@ theorem override_props_cases (E : Ext) (L : Variant) (cfg : Cfg) (st : St) (u : 
           | ok _ => exact ⟨rfl, rfl⟩
           | error e => exact overrideHandler_props ..
 
+theorem override_stepOk {E : Ext} (hE : StepExnOk E) {cfg : Cfg} {st : St}
+    (hg : conf cfg st.props st.value = true) (u : Upd) (vv : List Int)
+    (hc' : consistent (override E repaired cfg st u vv).st.props = true) :
+    StepOk cfg (override E repaired cfg st u vv) := by
+  rcases override_props_cases E repaired cfg st u vv with h | ⟨hp, _⟩
+  · rw [h]; exact ⟨hg, by simp⟩
+  · rw [hp] at hc'
+    rcases override_ok hE (cfg := cfg) (st := st) u vv hc' with h | ⟨_, ho, hp', hconf⟩
+    · rw [h]; exact ⟨hg, by simp⟩
+    · exact ⟨by rw [hp']; exact hconf, by rw [ho]; simp⟩
+
+theorem override_out (E : Ext) (L : Variant) (cfg : Cfg) (st : St) (u : Upd) (vv : List Int) :
+    (override E L cfg st u vv).out = [] := by
+  rcases override_props_cases E L cfg st u vv with h | ⟨_, h⟩
+  · rw [h]
+  · exact h
+
+theorem setValue_silent (E : Ext) (L : Variant) (cfg : Cfg) (st : St) (v : Val) :
+    (setValue E L cfg st v false).out = [] := by
+  unfold setValue
+  cases h1 : toValid E st.props v with
+  | error e1 => rfl
+  | ok v' =>
+    simp only []
+    cases h2 : validOrRaise L cfg st.props v' with
+    | error e2 => rfl
+    | ok u => simp
+
+theorem configurePre_out (E : Ext) (L : Variant) (cfg : Cfg) (st : St) (u : Upd) (vv : List Int) :
+    (configurePre E L cfg st u vv).out = [] := by
+  unfold configurePre; split
+  · exact override_out ..
+  · rfl
+
+theorem configurePre_stepOk {E : Ext} (hE : StepExnOk E) {cfg : Cfg} {st : St}
+    (hg : conf cfg st.props st.value = true) (u : Upd) (vv : List Int)
+    (hc' : consistent (configurePre E repaired cfg st u vv).st.props = true) :
+    StepOk cfg (configurePre E repaired cfg st u vv) := by
+  unfold configurePre at hc' ⊢
+  split
+  · rename_i h; simp only [h, if_true] at hc'; exact override_stepOk hE hg u vv hc'
+  · exact ⟨hg, by simp⟩
+
+/-- `configure_char` never emits (its `set_value` is called with `should_notify=False`) -/
+theorem configure_out (E : Ext) (L : Variant) (cfg : Cfg) (st : St) (u : Upd) (vv : List Int) (v : Val) :
+    (configure E L cfg st u vv v).out = [] := by
+  unfold configure
+  simp only []
+  split
+  · exact configurePre_out ..
+  · split
+    · simp [configurePre_out, setValue_silent]
+    · exact configurePre_out ..
+
+theorem configure_props (E : Ext) (L : Variant) (cfg : Cfg) (st : St) (u : Upd) (vv : List Int) (v : Val) :
+    (configure E L cfg st u vv v).st.props = (configurePre E L cfg st u vv).st.props := by
+  unfold configure
+  simp only []
+  split
+  · rfl
+  · split
+    · exact setValue_props ..
+    · rfl
+
+theorem configure_ok {E : Ext} (hE : StepExnOk E) {cfg : Cfg} {st : St}
+    (hg : conf cfg st.props st.value = true) (u : Upd) (vv : List Int) (v : Val)
+    (hc' : consistent (configure E repaired cfg st u vv v).st.props = true) :
+    StepOk cfg (configure E repaired cfg st u vv v) := by
+  rw [configure_props] at hc'
+  have h1 := configurePre_stepOk hE hg u vv hc'
+  unfold configure
+  simp only []
+  split
+  · exact h1
+  · split
+    · have h2 := setValue_ok (E := E) hc' h1.stored v false
+      exact ⟨h2.stored, by
+        intro e he
+        simp only [configurePre_out, List.nil_append] at he
+        exact h2.emitted e he⟩
+    · exact h1
+
+/-- what a raising `configure_char` leaves behind: nothing if the override part raised (it can
+    only be refused up front), otherwise the state right after the override part -/
+theorem configure_reject_state {E : Ext} {L : Variant} {cfg : Cfg} {st : St} {u : Upd} {vv : List Int}
+    {v : Val} {e : Exn} (h : (configure E L cfg st u vv v).exn = some e) :
+    (configure E L cfg st u vv v).st = (configurePre E L cfg st u vv).st := by
+  unfold configure at h ⊢
+  simp only [] at h ⊢
+  split
+  · rfl
+  · rename_i hn
+    split
+    · rename_i ht
+      simp only [hn, ht, if_true] at h
+      exact (setValue_reject h).1
+    · rfl
+
 theorem step_ok {E : Ext} (hE : StepExnOk E) {cfg : Cfg} {st : St} (hc : consistent st.props = true)
     (hg : conf cfg st.props st.value = true) (op : Op)
     (hc' : consistent (step E repaired cfg st op).st.props = true) :
@@ -644,17 +742,12 @@ theorem step_ok {E : Ext} (hE : StepExnOk E) {cfg : Cfg} {st : St} (hc : consist
   cases op with
   | set v n => exact setValue_ok hc hg v n
   | client v => exact clientUpdate_ok hc hg v
-  | override u vv =>
-    simp only [step] at hc' ⊢
-    rcases override_props_cases E repaired cfg st u vv with h | ⟨hp, _⟩
-    · rw [h]; exact ⟨hg, by simp⟩
-    · rw [hp] at hc'
-      rcases override_ok hE (cfg := cfg) (st := st) u vv hc' with h | ⟨_, ho, hp', hconf⟩
-      · rw [h]; exact ⟨hg, by simp⟩
-      · exact ⟨by rw [hp']; exact hconf, by rw [ho]; simp⟩
+  | override u vv => exact override_stepOk hE hg u vv hc'
+  | configure u vv v => exact configure_ok hE hg u vv v hc'
 
 /-- an operation that raises leaves the whole state as it was and emits nothing -/
 theorem step_reject {E : Ext} (hE : StepExnOk E) {cfg : Cfg} {st : St} (op : Op)
+    (hop : ∀ u vv v, op ≠ .configure u vv v)
     (hc' : consistent (step E repaired cfg st op).st.props = true) {e : Exn}
     (h : (step E repaired cfg st op).exn = some e) :
     (step E repaired cfg st op).st = st ∧ (step E repaired cfg st op).out = [] := by
@@ -669,6 +762,7 @@ theorem step_reject {E : Ext} (hE : StepExnOk E) {cfg : Cfg} {st : St} (op : Op)
       rcases override_ok hE (cfg := cfg) (st := st) u vv hc' with h' | ⟨hn, _⟩
       · rw [h']; exact ⟨rfl, rfl⟩
       · rw [hn] at h; cases h
+  | configure u vv v => exact absurd rfl (hop u vv v)
 
 theorem AllConsistent.head {E : Ext} {L : Variant} {cfg : Cfg} {st : St} {ops : List Op}
     (h : AllConsistent E L cfg st ops) : consistent st.props = true := by
@@ -710,6 +804,7 @@ theorem allConsistent_of_noOverride (E : Ext) (L : Variant) (cfg : Cfg) (ops : L
       refine ⟨hc, ih _ (by simpa [noOverride] using hno) ?_⟩
       simp only [step]; rw [clientUpdate_props]; exact hc
     | override u vv => simp [noOverride] at hno
+    | configure u vv v => simp [noOverride] at hno
 
 /-- `__init__`: a consistent set yields a conforming initial value -/
 theorem init_ok (E : Ext) (cfg : Cfg) {p : Props} (hc : consistent p = true) :
@@ -730,20 +825,32 @@ theorem shipped_all_consistent : shipped.all (fun d => consistent d.props) = tru
   decide +kernel
 
 
+theorem setValue_null {E : Ext} {L : Variant} {cfg : Cfg} (ha : cfg.alwaysNull = true) {st : St}
+    (hv : st.value = .null) (v : Val) (n : Bool) : (setValue E L cfg st v n).st.value = .null := by
+  unfold setValue
+  cases h1 : toValid E st.props v with
+  | error e1 => exact hv
+  | ok v' =>
+    simp only []
+    cases h2 : validOrRaise L cfg st.props v' with
+    | error e2 => exact hv
+    | ok u => simp [ha]
+
+theorem override_null {E : Ext} {L : Variant} {cfg : Cfg} (ha : cfg.alwaysNull = true) {st : St}
+    (hv : st.value = .null) (u : Upd) (vv : List Int) : (override E L cfg st u vv).st.value = .null := by
+  unfold override
+  by_cases h1 : (u.isEmpty && vv.isEmpty) = true
+  · simp [h1, hv]
+  · by_cases h2 : tooLong u.maxLen = true
+    · simp [h1, h2, hv]
+    · simp [h1, h2, ha]
+
 /-- the always-null type never keeps a value: whatever the operation and its outcome, the
     stored (hence reported) value stays `null` -/
 theorem step_alwaysNull {E : Ext} {L : Variant} {cfg : Cfg} (ha : cfg.alwaysNull = true) {st : St}
     (hv : st.value = .null) (op : Op) : (step E L cfg st op).st.value = .null := by
   cases op with
-  | set v n =>
-    simp only [step]; unfold setValue
-    cases h1 : toValid E st.props v with
-    | error e1 => exact hv
-    | ok v' =>
-      simp only []
-      cases h2 : validOrRaise L cfg st.props v' with
-      | error e2 => exact hv
-      | ok u => simp [ha]
+  | set v n => exact setValue_null ha hv v n
   | client v =>
     simp only [step]; unfold clientUpdate
     simp only []
@@ -754,12 +861,18 @@ theorem step_alwaysNull {E : Ext} {L : Variant} {cfg : Cfg} (ha : cfg.alwaysNull
       cases h2 : (if (!cfg.allowInvalid) = true then validOrRaise L cfg st.props v' else .ok ()) with
       | error e2 => exact hv
       | ok u => simp [ha]
-  | override u vv =>
-    simp only [step]; unfold override
-    by_cases h1 : (u.isEmpty && vv.isEmpty) = true
-    · simp [h1, hv]
-    · by_cases h2 : tooLong u.maxLen = true
-      · simp [h1, h2, hv]
-      · simp [h1, h2, ha]
+  | override u vv => exact override_null ha hv u vv
+  | configure u vv v =>
+    have hpre : (configurePre E L cfg st u vv).st.value = .null := by
+      unfold configurePre; split
+      · exact override_null ha hv u vv
+      · exact hv
+    simp only [step]; unfold configure
+    simp only []
+    split
+    · exact hpre
+    · split
+      · exact setValue_null ha hpre v false
+      · exact hpre
 
 end Hap.Char
